@@ -1,7 +1,17 @@
 # -*- coding: utf-8 -*-
 
 import functools as ft
-from typing import Dict, List, Mapping, Optional, Type, TypeVar, Union, cast
+from typing import (
+    Dict,
+    List,
+    Mapping,
+    Optional,
+    Set,
+    Type,
+    TypeVar,
+    Union,
+    cast,
+)
 
 from .._utils import lazy
 from ..exc import ExtensionError, SDLError
@@ -256,6 +266,16 @@ class ASTTypeBuilder:
         )
 
     def _build_enum_type(self, type_def: _ast.EnumTypeDefinition) -> EnumType:
+        seen = set()  # type: Set[str]
+        for value_node in type_def.values:
+            if value_node.name.value in seen:
+                raise SDLError(
+                    'Duplicate enum value "%s" on "%s"'
+                    % (value_node.name.value, type_def.name.value),
+                    [value_node],
+                )
+            seen.add(value_node.name.value)
+
         return EnumType(
             name=type_def.name.value,
             description=_desc(type_def),
